@@ -19,6 +19,9 @@ THEOREMS = [
     "Mpc.C05_stream_decode",
     "Mpc.C05_stream_session",
     "Mpc.C05_stream_concrete",
+    "Mpc.C05_stream_undriven_output_keeps",
+    "Mpc.C05_stream_undriven_output_undefined",
+    "Mpc.C05_stream_output_slot_stale_witness",
     "Mpc.C05_gc_safe",
     "Mpc.C05_gcInsert_safe",
     "Mpc.C05_gc_safe_reordered",
@@ -194,7 +197,17 @@ def run(ctx):
         n_or = 900 if quick else 4000
         n_co = 300 if quick else 5000
         n_upd = 200 if quick else 600
+        n_lib = 160 if quick else 320
         for s in seeds:
+            # class lib: calls of the MPCL library's functions (catalogue read from $MPCLDIR/pkg at run time):
+            # MPCL-implemented, native circuits (Circ instructions), compiler builtins (Builtin instructions)
+            ops, out, meta = ctx.run_hx("oracle", n_lib, seed=s, tag="-lib", timeout=1500, extra_args=["-extra", "lib"])
+            ctx.absorb_meta(meta)
+            ctx.correspond("Program.GC + wire allocator trace on programs calling library functions (seed %d)" % s,
+                           ops, out)
+            for line in open(ops, errors="replace"):
+                if not line.startswith("c05 skip"):
+                    ctx.distinct.add(hashlib.sha1(line.encode()).digest())
             # class upd: element updates inside if / else and loops, every combination of the conditions
             ops, out, meta = ctx.run_hx("oracle", n_upd, seed=s, tag="-upd", timeout=1500, extra_args=["-extra", "upd"])
             ctx.absorb_meta(meta)
@@ -215,6 +228,10 @@ def run(ctx):
             ctx.correspond("Streaming.Garble bytes (seed %d)" % s, ops, out)
             for line in open(ops, errors="replace"):
                 ctx.distinct.add(hashlib.sha1(line.encode()).digest())
+        if ctx.widen:
+            ops, out, meta = ctx.run_hx("oracle", 800, seed=ctx.seed + 7000, tag="-lib-widen", timeout=1500,
+                                        extra_args=["-extra", "lib"])
+            ctx.absorb_meta(meta, prefix="widen_")
         if ctx.widen:
             for s in range(ctx.seed + 7000, ctx.seed + 7002):
                 ops, out, meta = ctx.run_hx("oracle", 1200, seed=s, tag="-upd-widen", timeout=1500,
@@ -274,8 +291,27 @@ def run(ctx):
         ctx.oblige("class upd: array and struct-field updates in if / else branches and loops, update bursts with the stored "
                    "scalar used again, same-width computations after the merge, either party owning the array", not miss,
                    str(miss))
+        lib = {k: v for k, v in c.items() if "lib" in k or k in ("ssaop_circ", "ssaop_builtin")}
+        ctx.oblige("class lib: the library catalogue was read from the tree under test, every catalogue entry was "
+                   "instantiated at least twice per run, at least 40% of the library functions were compared with the "
+                   "whole-circuit reference in every run on average, among them native circuits (Circ instructions) and "
+                   "compiler builtins (Builtin instructions); programs with dirtied free lists, two calls, array and "
+                   "unsized arguments ran",
+                   c.get("lib_catalogue_functions", 0) >= 40 * len(seeds)
+                   and c.get("class_lib", 0) >= 2 * c.get("lib_catalogue_functions", 1 << 30)
+                   and c.get("lib_functions_compared", 0) * 10 >= 4 * c.get("lib_catalogue_functions", 1 << 30)
+                   and c.get("ssaop_circ", 0) > 0 and c.get("ssaop_builtin", 0) > 0
+                   and all(c.get("feat_" + k, 0) > 0 for k in ("lib_dirty", "lib_two_calls", "lib_array_arg", "lib_unsized_arg",
+                                                              "lib_round_0", "lib_round_1", "lib_corpus")),
+                   str(lib))
     ctx.coverage["rule"] = (
-        "oracle: class upd (array / struct-field element updates inside if / else, nested if and loops, bursts of updates "
+        "oracle: class lib (one main per exported function of $MPCLDIR/pkg whose signature is built from scalars and "
+        "integer arrays / slices - the catalogue is read from the library source of the tree under test, symbolic array "
+        "sizes resolved from the packages' numeric constants; entry (i + seed) mod len for program i; unsized parameters "
+        "wide in the first round, boundary-biased narrow widths later; values of the result's width die before the call "
+        "so that the result's wire ids carry stale labels; optionally a second call on other arguments; two input pairs "
+        "per program, biased to all-ones / zero / top bit; programs whose SSA cost estimate exceeds the tier's budget "
+        "are skipped and counted); class upd (array / struct-field element updates inside if / else, nested if and loops, bursts of updates "
         "of one array, the stored scalar used again afterwards, computations of the scalar's width after the merge; each "
         "program runs on all 2^k combinations of its k conditions and a tag result proves on the whole-circuit reference "
         "that every branch was taken); a program whose real GC'd step list frees a range that is still pointed at but whose "
@@ -305,7 +341,14 @@ def run(ctx):
         "Oracle: real compiler.Stream <-> circuit.StreamEvaluator sessions vs real Compile + Circuit.Compute on generated "
         "programs: values and output types of both parties. A mismatch is attributed by re-running ssa.Program.Stream with "
         "exactly the gc instructions dropped that free a range which is still pointed at (per-bit replay of the streamer's "
-        "rewiring); (the two GC defects found this way were fixed in /repo by 0c2f851; their witnesses stay in the corpus). Theorems: gate "
+        "rewiring); (the two GC defects found this way were fixed in /repo by 0c2f851; their witnesses stay in the corpus). "
+        "Class lib calls every function of the MPCL library whose signature is in the class's type grammar (catalogue "
+        "scanned from $MPCLDIR/pkg of the tree under test); a failing session of a program with Builtin instructions is "
+        "re-run with every builtin's builder working on a copy of its result slice and every slot it replaced connected to "
+        "the original output wire with an ID gate - agreement then attributes the failure to Program.Stream using the "
+        "builder's result slice as the instruction circuit's output wires (known findings "
+        "C05-stream-builder-result-slots-panic / -stale; C05_stream_undriven_output_keeps, "
+        "C05_stream_output_slot_stale_witness). Theorems: gate "
         "record codec round trip (both id encodings, all flags), streamed gate/circuit/program keeps the C01 relation on "
         "the global wire store for any tweak-counter start, C05_gc_safe: Program.GC (alias table closed transitively over "
         "the eight rewiring operands) never frees a range a later-read value points into, for every well-formed step list; "
